@@ -531,7 +531,11 @@ fn cmd_run(a: &Args) -> i32 {
                 let pseed = mix(seed ^ 0xD1FF, this);
                 let len = 15 + (mix(pseed, 3) % a.u64("len", 90)) as usize;
                 let prog = diff::gen_program(pseed, len);
-                let d = diff::run_diff(&prog);
+                let over_aligned = this % 4 == 3;
+                let d = diff::run_diff(&prog, over_aligned);
+                AGG.with(|ag| {
+                    *ag.borrow_mut().extra.entry(if over_aligned { "programs_on_64_byte_aligned_payload".to_string() } else { "programs_on_word_aligned_payload".to_string() }).or_insert(0) += 1;
+                });
                 let mut res = empty_result();
                 res.stats.ops = d.ops as u64;
                 res.stats.events = d.lines as u64;
